@@ -1,1 +1,582 @@
-pub fn check(_tier: &str) -> i32 { 2 }
+//! E6: the shipped example programs.  For every example: a bounded-exhaustive generator of tiny, undeniably
+//! well-formed instance FILES, an oracle written from the problem statement (brute force over the combinatorial
+//! object, independent of the DP model), and the real example BINARY built from /repo's working tree, run with
+//! several widths / thread counts.  Serves C16.
+use crate::par::*;
+use crate::report::*;
+use serde_json::{json, Value};
+use std::collections::BTreeMap;
+use std::process::{Command, Stdio};
+use std::time::{Duration, Instant};
+
+#[derive(Clone, Debug)]
+pub enum Expect { Value(f64), Infeasible }
+#[derive(Clone, Debug)]
+pub struct Case { pub text: String, pub expect: Expect, pub descr: String }
+
+fn perms(n: usize) -> Vec<Vec<usize>> {
+    fn rec(cur: &mut Vec<usize>, used: &mut Vec<bool>, n: usize, out: &mut Vec<Vec<usize>>) {
+        if cur.len() == n { out.push(cur.clone()); return; }
+        for i in 0..n { if !used[i] { used[i] = true; cur.push(i); rec(cur, used, n, out); cur.pop(); used[i] = false; } }
+    }
+    let mut out = vec![];
+    rec(&mut vec![], &mut vec![false; n], n, &mut out);
+    out
+}
+/// mixed radix digit extraction
+fn digit(r: &mut u64, base: u64) -> u64 { let d = *r % base; *r /= base; d }
+fn binom(n: u64, k: u64) -> u64 { if k > n { 0 } else { (0..k).fold(1u64, |a, i| a * (n - i) / (i + 1)) } }
+/// idx-th k-subset of 0..n in lexicographic order
+fn subset(n: u64, k: u64, mut idx: u64) -> Vec<usize> {
+    let mut out = vec![];
+    let mut start = 0;
+    for j in 0..k {
+        let mut x = start;
+        loop { let c = binom(n - x - 1, k - j - 1); if idx < c { break; } idx -= c; x += 1; }
+        out.push(x as usize);
+        start = x + 1;
+    }
+    out
+}
+
+pub struct Example {
+    pub name: &'static str,
+    pub scope: String,
+    pub count: u64,
+    pub gen: Box<dyn Fn(u64) -> Case + Sync>,
+    /// argument sets: each run = binary + file argument(s) + one of these
+    pub arg_sets: Vec<Vec<String>>,
+    /// how the file is passed
+    pub file_flag: Option<&'static str>,
+    pub tsptw_output: bool,
+}
+
+fn argsets(widths: &[Option<usize>], threads: &[Option<usize>], wflag: &str, tflag: &str) -> Vec<Vec<String>> {
+    let mut v = vec![];
+    for w in widths { for t in threads {
+        let mut a = vec![];
+        if let Some(w) = w { a.push(wflag.to_string()); a.push(w.to_string()); }
+        if let Some(t) = t { a.push(tflag.to_string()); a.push(t.to_string()); }
+        v.push(a);
+    } }
+    v
+}
+
+pub fn examples(th: bool) -> Vec<Example> {
+    let w4 = [None, Some(1), Some(2), Some(3)];
+    let t3 = [Some(1), Some(2), Some(4)];
+    let t_q = [Some(1), Some(3)];
+    let tt: &[Option<usize>] = if th { &t3 } else { &t_q };
+    let mut ex = vec![];
+
+    // ---------------------------------------------------------------- knapsack
+    {
+        let scopes: Vec<(usize, u64)> = if th { vec![(1, 3), (2, 3), (3, 3), (4, 2)] } else { vec![(1, 3), (2, 3), (3, 2)] };
+        let sizes: Vec<u64> = scopes.iter().map(|(n, a)| 7 * (a * a).pow(*n as u32)).collect();
+        let count = sizes.iter().sum();
+        let sc = scopes.clone();
+        ex.push(Example { name: "knapsack", scope: format!("(items, alphabet of weights/profits 1..a) in {:?}, capacity 0..=6, all combinations", scopes), count, file_flag: None, tsptw_output: false,
+            arg_sets: argsets(&w4, &[None], "-w", "-t"),
+            gen: Box::new(move |mut idx| {
+                let mut k = 0;
+                while idx >= sizes[k] { idx -= sizes[k]; k += 1; }
+                let (n, a) = sc[k];
+                let cap = digit(&mut idx, 7) as usize;
+                let items: Vec<(usize, usize)> = (0..n).map(|_| { let p = digit(&mut idx, a) as usize + 1; let w = digit(&mut idx, a) as usize + 1; (p, w) }).collect();
+                let mut best = 0;
+                for m in 0..(1u32 << n) { let w: usize = (0..n).filter(|i| m & (1 << i) != 0).map(|i| items[i].1).sum(); if w <= cap { let p: usize = (0..n).filter(|i| m & (1 << i) != 0).map(|i| items[i].0).sum(); best = best.max(p); } }
+                let text = format!("{} {}\n{}", n, cap, items.iter().map(|(p, w)| format!("{} {}\n", p, w)).collect::<String>());
+                Case { text, expect: Expect::Value(best as f64), descr: format!("cap {} items(profit,weight) {:?}", cap, items) }
+            }) });
+    }
+    // ---------------------------------------------------------------- misp
+    {
+        let ns: Vec<usize> = if th { vec![1, 2, 3, 4, 5] } else { vec![1, 2, 3, 4] };
+        let sizes: Vec<u64> = ns.iter().map(|n| (1u64 << (n * (n - 1) / 2)) * (1u64 << n)).collect();
+        let count = sizes.iter().sum();
+        let nsc = ns.clone();
+        ex.push(Example { name: "misp", scope: format!("all graphs on n vertices, n in {:?}, vertex weights in {{1,2}}^n", ns), count, file_flag: None, tsptw_output: false,
+            arg_sets: argsets(&w4, tt, "-w", "-t"),
+            gen: Box::new(move |mut idx| {
+                let mut k = 0;
+                while idx >= sizes[k] { idx -= sizes[k]; k += 1; }
+                let n = nsc[k];
+                let ne = n * (n - 1) / 2;
+                let g = digit(&mut idx, 1 << ne);
+                let w: Vec<usize> = (0..n).map(|_| digit(&mut idx, 2) as usize + 1).collect();
+                let mut edges = vec![];
+                let mut bit = 0;
+                for u in 0..n { for v in u + 1..n { if g & (1 << bit) != 0 { edges.push((u, v)); } bit += 1; } }
+                let mut best = 0;
+                for m in 0..(1u32 << n) { if edges.iter().all(|(u, v)| !(m & (1 << u) != 0 && m & (1 << v) != 0)) { best = best.max((0..n).filter(|i| m & (1 << i) != 0).map(|i| w[i]).sum::<usize>()); } }
+                let mut text = format!("c generated\np edge {} {}\n", n, edges.len());
+                for (i, x) in w.iter().enumerate() { text.push_str(&format!("n {} {}\n", i + 1, x)); }
+                for (u, v) in edges.iter() { text.push_str(&format!("e {} {}\n", u + 1, v + 1)); }
+                Case { text, expect: Expect::Value(best as f64), descr: format!("weights {:?} edges {:?}", w, edges) }
+            }) });
+    }
+    // ---------------------------------------------------------------- max2sat
+    {
+        // clause universe for n variables: unit clauses (2n) and binary clauses on two distinct variables (4 per pair)
+        let universe = |n: usize| -> Vec<Vec<i32>> {
+            let mut u = vec![];
+            for x in 1..=n as i32 { u.push(vec![x]); u.push(vec![-x]); }
+            for x in 1..=n as i32 { for y in x + 1..=n as i32 { for (sx, sy) in [(1, 1), (1, -1), (-1, 1), (-1, -1)] { u.push(vec![sx * x, sy * y]); } } }
+            u
+        };
+        let scopes: Vec<(usize, usize)> = if th { vec![(1, 2), (2, 3), (3, 3)] } else { vec![(1, 2), (2, 3), (3, 2)] };
+        let mut blocks: Vec<(usize, usize, u64)> = vec![]; // (n, k clauses, size)
+        for (n, kmax) in scopes.iter() { let u = universe(*n).len() as u64; for k in 1..=*kmax { if k as u64 <= u { blocks.push((*n, k, binom(u, k as u64) * (1u64 << k))); } } }
+        let count = blocks.iter().map(|b| b.2).sum();
+        ex.push(Example { name: "max2sat", scope: format!("(variables, max clauses) in {:?}: all sets of distinct non tautological unit/binary clauses, weights in {{1,2}}", scopes), count, file_flag: Some("--file"), tsptw_output: false,
+            arg_sets: argsets(&w4, &[None], "-w", "-t"),
+            gen: Box::new(move |mut idx| {
+                let mut b = 0;
+                while idx >= blocks[b].2 { idx -= blocks[b].2; b += 1; }
+                let (n, k, _) = blocks[b];
+                let u = universe(n);
+                let nsub = binom(u.len() as u64, k as u64);
+                let sub = subset(u.len() as u64, k as u64, idx % nsub);
+                let mut r = idx / nsub;
+                let clauses: Vec<(usize, Vec<i32>)> = sub.iter().map(|c| (digit(&mut r, 2) as usize + 1, u[*c].clone())).collect();
+                let mut best = 0;
+                for a in 0..(1u32 << n) {
+                    let sat = |l: i32| { let v = (a >> (l.abs() - 1)) & 1 == 1; if l > 0 { v } else { !v } };
+                    best = best.max(clauses.iter().filter(|(_, c)| c.iter().any(|l| sat(*l))).map(|(w, _)| *w).sum::<usize>());
+                }
+                let mut text = format!("c generated\np wcnf {} {}\n", n, clauses.len());
+                for (w, c) in clauses.iter() { text.push_str(&format!("{} {} 0\n", w, c.iter().map(|l| l.to_string()).collect::<Vec<_>>().join(" "))); }
+                Case { text, expect: Expect::Value(best as f64), descr: format!("{} vars, clauses (weight, literals) {:?}", n, clauses) }
+            }) });
+    }
+    // ---------------------------------------------------------------- mcp
+    {
+        // quick: the 4-vertex graphs use the weight alphabet {absent, -1, 2} only
+        let ns: Vec<usize> = vec![2, 3, 4];
+        let alpha = move |n: usize| -> u64 { if n == 4 && !th { 3 } else { 4 } };
+        let sizes: Vec<u64> = ns.iter().map(|n| alpha(*n).pow((n * (n - 1) / 2) as u32)).collect();
+        let count = sizes.iter().sum();
+        let nsc = ns.clone();
+        ex.push(Example { name: "mcp", scope: format!("all graphs on n vertices, n in {:?}, every edge absent or weighted -1, 1 or 2{}", ns, if th { "" } else { " (4 vertices: absent, -1 or 2)" }), count, file_flag: Some("--file"), tsptw_output: false,
+            arg_sets: argsets(&w4, &[None], "-w", "-t"),
+            gen: Box::new(move |mut idx| {
+                let mut k = 0;
+                while idx >= sizes[k] { idx -= sizes[k]; k += 1; }
+                let n = nsc[k];
+                let mut edges = vec![];
+                for u in 0..n { for v in u + 1..n { let d = digit(&mut idx, alpha(n)); if d > 0 { edges.push((u, v, if alpha(n) == 3 { [-1i64, 2][d as usize - 1] } else { [-1i64, 1, 2][d as usize - 1] })); } } }
+                let mut best = i64::MIN;
+                for m in 0..(1u32 << n) { if m & 1 == 0 { let c: i64 = edges.iter().filter(|(u, v, _)| ((m >> u) & 1) != ((m >> v) & 1)).map(|e| e.2).sum(); best = best.max(c); } }
+                let mut text = format!("c generated\n{} {}\n", n, edges.len());
+                for (u, v, w) in edges.iter() { text.push_str(&format!("{} {} {}\n", u + 1, v + 1, w)); }
+                Case { text, expect: Expect::Value(best as f64), descr: format!("{} vertices, edges {:?}", n, edges) }
+            }) });
+    }
+    // ---------------------------------------------------------------- lcs
+    {
+        let maxlen = 3usize;
+        let mut strs: Vec<String> = vec![];
+        for l in 1..=maxlen { for m in 0..(1u32 << l) { strs.push((0..l).map(|i| if m & (1 << i) != 0 { 'b' } else { 'a' }).collect()); } }
+        let ns = strs.len() as u64;
+        let count = ns * ns + if th { ns * ns * ns } else { 0 };
+        ex.push(Example { name: "lcs", scope: format!("all ordered tuples of {} strings of length 1..=3 over {{a,b}}", if th { "2 and 3" } else { "2" }), count, file_flag: None, tsptw_output: false,
+            arg_sets: argsets(&w4, tt, "-w", "-t"),
+            gen: Box::new(move |mut idx| {
+                let k = if idx < ns * ns { 2 } else { idx -= ns * ns; 3 };
+                let combo: Vec<String> = (0..k).map(|_| strs[digit(&mut idx, ns) as usize].clone()).collect();
+                let is_sub = |x: &str, s: &str| { let mut it = s.chars(); x.chars().all(|c| it.any(|d| d == c)) };
+                let first = &combo[0];
+                let mut best = 0;
+                for m in 0..(1u32 << first.len()) {
+                    let x: String = first.chars().enumerate().filter(|(i, _)| m & (1 << i) != 0).map(|(_, c)| c).collect();
+                    if combo.iter().all(|s| is_sub(&x, s)) { best = best.max(x.len()); }
+                }
+                let mut chars: Vec<char> = combo.iter().flat_map(|s| s.chars()).collect();
+                chars.sort(); chars.dedup();
+                let text = format!("{} {}\n{}", k, chars.len(), combo.iter().map(|s| format!("{} {}\n", s.len(), s)).collect::<String>());
+                Case { text, expect: Expect::Value(best as f64), descr: format!("strings {:?}", combo) }
+            }) });
+    }
+    // ---------------------------------------------------------------- golomb
+    {
+        let sizes: Vec<usize> = if th { vec![2, 3, 4, 5, 6, 7] } else { vec![2, 3, 4, 5, 6] };
+        let sc = sizes.clone();
+        ex.push(Example { name: "golomb", scope: format!("number of marks in {:?} (oracle: brute force over mark sets)", sizes), count: sizes.len() as u64, file_flag: Some("GOLOMB"), tsptw_output: false,
+            arg_sets: argsets(&[None, Some(1), Some(2), Some(3), Some(10)], &[None], "-w", "-t"),
+            gen: Box::new(move |idx| {
+                let n = sc[idx as usize];
+                // brute force: smallest length L such that n marks in 0..=L with all differences distinct
+                fn ok(marks: &[usize]) -> bool { let mut seen = std::collections::BTreeSet::new(); for i in 0..marks.len() { for j in i + 1..marks.len() { if !seen.insert(marks[j] - marks[i]) { return false; } } } true }
+                fn extend(marks: &mut Vec<usize>, n: usize, len: usize) -> bool {
+                    if marks.len() == n { return *marks.last().unwrap() == len; }
+                    let from = marks.last().unwrap() + 1;
+                    for x in from..=len { marks.push(x); if ok(marks) && extend(marks, n, len) { marks.pop(); return true; } marks.pop(); }
+                    false
+                }
+                let mut len = n - 1;
+                loop { if extend(&mut vec![0], n, len) { break; } len += 1; }
+                Case { text: format!("{}", n), expect: Expect::Value(-(len as f64)), descr: format!("{} marks (optimal ruler length {})", n, len) }
+            }) });
+    }
+    // ---------------------------------------------------------------- sop
+    {
+        // nodes 0..n-1, 0 first, n-1 last; relevant distances: 0->i, i->j, i->n-1 for inner i != j; precedence DAGs on the inner nodes
+        let dags = |inner: usize| -> Vec<Vec<(usize, usize)>> {
+            // all transitively closed acyclic relations on `inner` elements (numbered 1..=inner)
+            let pairs: Vec<(usize, usize)> = (1..=inner).flat_map(|a| (a + 1..=inner).map(move |b| (a, b))).collect();
+            let mut out = vec![];
+            for code in 0..3u32.pow(pairs.len() as u32) {
+                let mut c = code;
+                let mut prec: Vec<(usize, usize)> = vec![];
+                for (a, b) in pairs.iter() { match c % 3 { 1 => prec.push((*a, *b)), 2 => prec.push((*b, *a)), _ => () } c /= 3; }
+                let closed = prec.iter().all(|(a, b)| prec.iter().all(|(c2, d)| b != c2 || prec.contains(&(*a, *d))));
+                let acyclic = prec.iter().all(|(a, b)| !prec.contains(&(*b, *a)));
+                if closed && acyclic { out.push(prec); }
+            }
+            out
+        };
+        let scopes: Vec<(usize, u64)> = if th { vec![(3, 3), (4, 3), (5, 2)] } else { vec![(3, 3), (4, 2)] }; // (n, distance alphabet size)
+        let info: Vec<(usize, u64, Vec<Vec<(usize, usize)>>, usize)> = scopes.iter().map(|(n, a)| { let inner = n - 2; (*n, *a, dags(inner), inner * 2 + inner * (inner - 1)) }).collect();
+        let sizes: Vec<u64> = info.iter().map(|(_, a, d, e)| d.len() as u64 * a.pow(*e as u32)).collect();
+        let count = sizes.iter().sum();
+        ex.push(Example { name: "sop", scope: format!("(nodes, distance alphabet 1..a) in {:?}: all relevant distance assignments x all precedence DAGs on the inner nodes", scopes), count, file_flag: None, tsptw_output: false,
+            arg_sets: argsets(&w4, tt, "-w", "-t"),
+            gen: Box::new(move |mut idx| {
+                let mut k = 0;
+                while idx >= sizes[k] { idx -= sizes[k]; k += 1; }
+                let (n, a, dg, _) = &info[k];
+                let n = *n;
+                let prec = dg[digit(&mut idx, dg.len() as u64) as usize].clone();
+                let mut d = vec![vec![0i64; n]; n];
+                for i in 0..n { for j in 0..n {
+                    if i == j { d[i][j] = 0; }
+                    else if j == 0 || i == n - 1 { d[i][j] = -1; }
+                    else if prec.contains(&(j, i)) { d[i][j] = -1; }
+                    else if i == 0 && j == n - 1 && n > 2 { d[i][j] = 9; }
+                    else { d[i][j] = digit(&mut idx, *a) as i64 + 1; }
+                } }
+                let inner: Vec<usize> = (1..n - 1).collect();
+                let mut best: Option<i64> = None;
+                for p in perms(inner.len()) {
+                    let seq: Vec<usize> = std::iter::once(0).chain(p.iter().map(|i| inner[*i])).chain(std::iter::once(n - 1)).collect();
+                    let pos = |v: usize| seq.iter().position(|x| *x == v).unwrap();
+                    if prec.iter().any(|(x, y)| pos(*x) > pos(*y)) { continue; }
+                    let c: i64 = (0..n - 1).map(|i| d[seq[i]][seq[i + 1]]).sum();
+                    if best.map_or(true, |b| c < b) { best = Some(c); }
+                }
+                let text = format!("NAME: gen\nTYPE: SOP\nEDGE_WEIGHT_SECTION\n{}\n{}EOF\n", n, d.iter().map(|r| r.iter().map(|x| x.to_string()).collect::<Vec<_>>().join(" ") + "\n").collect::<String>());
+                Case { text, expect: match best { Some(b) => Expect::Value(b as f64), None => Expect::Infeasible }, descr: format!("{} nodes, precedences {:?}, matrix {:?}", n, prec, d) }
+            }) });
+    }
+    // ---------------------------------------------------------------- tsptw
+    {
+        // n nodes (0 = depot), symmetric distances in {1,2} closed under shortest paths, windows (earliest in {0,2,4}, width in {0,2,5}), depot latest in {6,9,14}
+        let ns: Vec<usize> = if th { vec![2, 3, 4] } else { vec![2, 3] };
+        let sizes: Vec<u64> = ns.iter().map(|n| (1u64 << (n * (n - 1) / 2)) * 9u64.pow((*n - 1) as u32) * 3).collect();
+        let count = sizes.iter().sum();
+        let nsc = ns.clone();
+        ex.push(Example { name: "tsptw", scope: format!("nodes (incl. depot) in {:?}: all symmetric distance matrices over {{1,2}} (metric closure), customer windows earliest in {{0,2,4}} x width in {{0,2,5}}, depot horizon in {{6,9,14}}", ns), count, file_flag: None, tsptw_output: true,
+            arg_sets: argsets(&w4, tt, "-w", "-t"),
+            gen: Box::new(move |mut idx| {
+                let mut k = 0;
+                while idx >= sizes[k] { idx -= sizes[k]; k += 1; }
+                let n = nsc[k];
+                let mut d = vec![vec![0i64; n]; n];
+                for i in 0..n { for j in i + 1..n { let x = digit(&mut idx, 2) as i64 + 1; d[i][j] = x; d[j][i] = x; } }
+                for kk in 0..n { for i in 0..n { for j in 0..n { if d[i][kk] + d[kk][j] < d[i][j] { d[i][j] = d[i][kk] + d[kk][j]; } } } }
+                let mut tw: Vec<(i64, i64)> = vec![(0, [6, 9, 14][digit(&mut idx, 3) as usize])];
+                for _ in 1..n { let e = [0, 2, 4][digit(&mut idx, 3) as usize]; let w = [0, 2, 5][digit(&mut idx, 3) as usize]; tw.push((e, e + w)); }
+                let mut best: Option<i64> = None;
+                for p in perms(n - 1) {
+                    let mut t = 0; let mut cur = 0; let mut ok = true;
+                    for v in p.iter().map(|i| i + 1).chain(std::iter::once(0)) {
+                        t += d[cur][v];
+                        if t < tw[v].0 { t = tw[v].0; }
+                        if t > tw[v].1 { ok = false; break; }
+                        cur = v;
+                    }
+                    if ok && best.map_or(true, |b| t < b) { best = Some(t); }
+                }
+                let text = format!("# generated\n{}\n{}{}", n, d.iter().map(|r| r.iter().map(|x| x.to_string()).collect::<Vec<_>>().join(" ") + "\n").collect::<String>(), tw.iter().map(|(a, b)| format!("{} {}\n", a, b)).collect::<String>());
+                Case { text, expect: match best { Some(b) => Expect::Value(b as f64), None => Expect::Infeasible }, descr: format!("distances {:?} windows {:?}", d, tw) }
+            }) });
+    }
+    // ---------------------------------------------------------------- srflp
+    {
+        let ns: Vec<usize> = if th { vec![2, 3, 4] } else { vec![2, 3] };
+        let sizes: Vec<u64> = ns.iter().map(|n| (1u64 << n) * 3u64.pow((n * (n - 1) / 2) as u32)).collect();
+        let count = sizes.iter().sum();
+        let nsc = ns.clone();
+        ex.push(Example { name: "srflp", scope: format!("departments in {:?}, lengths in {{1,2}}, symmetric flows in {{0,1,2}}, all combinations", ns), count, file_flag: None, tsptw_output: false,
+            arg_sets: argsets(&w4, tt, "-w", "-t"),
+            gen: Box::new(move |mut idx| {
+                let mut k = 0;
+                while idx >= sizes[k] { idx -= sizes[k]; k += 1; }
+                let n = nsc[k];
+                let lens: Vec<i64> = (0..n).map(|_| digit(&mut idx, 2) as i64 + 1).collect();
+                let mut c = vec![vec![0i64; n]; n];
+                for a in 0..n { for b in a + 1..n { let f = digit(&mut idx, 3) as i64; c[a][b] = f; c[b][a] = f; } }
+                let mut best: Option<f64> = None;
+                for p in perms(n) {
+                    let mut pos = vec![0.0; n]; let mut x = 0.0;
+                    for dpt in p.iter() { pos[*dpt] = x + lens[*dpt] as f64 / 2.0; x += lens[*dpt] as f64; }
+                    let mut cost = 0.0;
+                    for a in 0..n { for b in a + 1..n { cost += c[a][b] as f64 * (pos[a] - pos[b] as f64).abs(); } }
+                    if best.map_or(true, |b| cost < b) { best = Some(cost); }
+                }
+                let text = format!("{}\n{}\n{}", n, lens.iter().map(|x| x.to_string()).collect::<Vec<_>>().join(" "), c.iter().map(|r| r.iter().map(|x| x.to_string()).collect::<Vec<_>>().join(" ") + "\n").collect::<String>());
+                Case { text, expect: Expect::Value(best.unwrap()), descr: format!("lengths {:?} flows {:?}", lens, c) }
+            }) });
+    }
+    // ---------------------------------------------------------------- talentsched
+    {
+        let scopes: Vec<(usize, usize)> = if th { vec![(2, 1), (2, 2), (3, 1), (3, 2), (4, 1), (4, 2)] } else { vec![(2, 1), (2, 2), (3, 1), (3, 2)] };
+        let sizes: Vec<u64> = scopes.iter().map(|(s, a)| (1u64 << (s * a)) * (1u64 << a) * (1u64 << s)).collect();
+        let count = sizes.iter().sum();
+        let sc = scopes.clone();
+        ex.push(Example { name: "talentsched", scope: format!("(scenes, actors) in {:?}: all presence matrices, actor costs in {{1,2}}, scene durations in {{1,2}}", scopes), count, file_flag: None, tsptw_output: false,
+            arg_sets: argsets(&w4, tt, "-w", "-t"),
+            gen: Box::new(move |mut idx| {
+                let mut k = 0;
+                while idx >= sizes[k] { idx -= sizes[k]; k += 1; }
+                let (ns, na) = sc[k];
+                let pres: Vec<Vec<u64>> = (0..na).map(|_| (0..ns).map(|_| digit(&mut idx, 2)).collect()).collect();
+                let costs: Vec<i64> = (0..na).map(|_| digit(&mut idx, 2) as i64 + 1).collect();
+                let durs: Vec<i64> = (0..ns).map(|_| digit(&mut idx, 2) as i64 + 1).collect();
+                let mut best: Option<i64> = None;
+                for p in perms(ns) {
+                    let mut tot = 0;
+                    for a in 0..na {
+                        let on: Vec<usize> = (0..ns).filter(|i| pres[a][p[*i]] == 1).collect();
+                        if let (Some(lo), Some(hi)) = (on.first(), on.last()) { tot += costs[a] * (*lo..=*hi).map(|i| durs[p[i]]).sum::<i64>(); }
+                    }
+                    if best.map_or(true, |b| tot < b) { best = Some(tot); }
+                }
+                let mut text = format!("generated\n{} {}\n", ns, na);
+                for a in 0..na { text.push_str(&format!("{} {}\n", pres[a].iter().map(|x| x.to_string()).collect::<Vec<_>>().join(" "), costs[a])); }
+                text.push_str(&format!("{}\n", durs.iter().map(|x| x.to_string()).collect::<Vec<_>>().join(" ")));
+                Case { text, expect: Expect::Value(best.unwrap() as f64), descr: format!("presence {:?} costs {:?} durations {:?}", pres, costs, durs) }
+            }) });
+    }
+    // ---------------------------------------------------------------- psp
+    {
+        // T periods, ni items, demand[i][t] in {0,1} (not all zero), change-over cost matrix off-diagonal in {0,1,2}, stocking in {0,1}
+        let scopes: Vec<(usize, usize)> = if th { vec![(2, 1), (3, 1), (2, 2), (3, 2), (4, 2)] } else { vec![(2, 1), (3, 1), (2, 2), (3, 2)] };
+        let sizes: Vec<u64> = scopes.iter().map(|(t, ni)| (1u64 << (t * ni)) * 3u64.pow((ni * (ni - 1)) as u32) * (1u64 << ni)).collect();
+        let count = sizes.iter().sum();
+        let sc = scopes.clone();
+        ex.push(Example { name: "psp", scope: format!("(periods, items) in {:?}: all 0/1 demand matrices, change-over costs in {{0,1,2}}, stocking costs in {{0,1}}", scopes), count, file_flag: None, tsptw_output: false,
+            arg_sets: argsets(&w4, &[None], "-w", "-t"),
+            gen: Box::new(move |mut idx| {
+                let mut k = 0;
+                while idx >= sizes[k] { idx -= sizes[k]; k += 1; }
+                let (t, ni) = sc[k];
+                let dem: Vec<Vec<u64>> = (0..ni).map(|_| (0..t).map(|_| digit(&mut idx, 2)).collect()).collect();
+                let mut co = vec![vec![0i64; ni]; ni];
+                for a in 0..ni { for b in 0..ni { if a != b { co[a][b] = digit(&mut idx, 3) as i64; } } }
+                let st: Vec<i64> = (0..ni).map(|_| digit(&mut idx, 2) as i64).collect();
+                let total: u64 = dem.iter().map(|r| r.iter().sum::<u64>()).sum();
+                // brute force: every period produces one item or nothing
+                let mut best: Option<i64> = None;
+                let opts = ni as u64 + 1;
+                for code in 0..opts.pow(t as u32) {
+                    let mut c = code;
+                    let seq: Vec<i64> = (0..t).map(|_| digit(&mut c, opts) as i64 - 1).collect();
+                    let mut cost = 0; let mut ok = true;
+                    for i in 0..ni {
+                        let prods: Vec<usize> = (0..t).filter(|p| seq[*p] == i as i64).collect();
+                        let dls: Vec<usize> = (0..t).filter(|p| dem[i][*p] == 1).collect();
+                        if prods.len() != dls.len() { ok = false; break; }
+                        for (p, dl) in prods.iter().zip(dls.iter()) { if p > dl { ok = false; } else { cost += st[i] * (*dl - *p) as i64; } }
+                    }
+                    if !ok { continue; }
+                    let prod: Vec<i64> = seq.iter().copied().filter(|x| *x >= 0).collect();
+                    for w in prod.windows(2) { cost += co[w[0] as usize][w[1] as usize]; }
+                    if best.map_or(true, |b| cost < b) { best = Some(cost); }
+                }
+                let text = format!("{}\n{}\n{}\n\n{}\n{}\n\n{}\n0\n", t, ni, total,
+                    co.iter().map(|r| r.iter().map(|x| x.to_string()).collect::<Vec<_>>().join(" ") + "\n").collect::<String>(),
+                    st.iter().map(|x| x.to_string()).collect::<Vec<_>>().join(" "),
+                    dem.iter().map(|r| r.iter().map(|x| x.to_string()).collect::<Vec<_>>().join(" ") + "\n").collect::<String>());
+                Case { text, expect: match best { Some(b) => Expect::Value(b as f64), None => Expect::Infeasible }, descr: format!("demands {:?} change-over {:?} stocking {:?}", dem, co, st) }
+            }) });
+    }
+    // ---------------------------------------------------------------- alp
+    {
+        // na aircraft, ncl classes, nr runways; targets sorted from {1,2,4}; latest = target + {0,1,3} (kept ordered inside a class); separations in {1,2}
+        let scopes: Vec<(usize, usize, usize)> = if th { vec![(1, 1, 1), (2, 1, 1), (2, 2, 1), (2, 2, 2), (3, 1, 1), (3, 2, 1), (3, 2, 2)] } else { vec![(1, 1, 1), (2, 1, 1), (2, 2, 1), (2, 2, 2), (3, 1, 2)] };
+        let msets = |na: usize| -> Vec<Vec<i64>> { let g = [1i64, 2, 4]; let mut out = vec![]; let mut cur = vec![0usize; na]; loop { if cur.windows(2).all(|w| w[0] <= w[1]) { out.push(cur.iter().map(|i| g[*i]).collect()); } let mut p = 0; loop { if p == na { return out; } cur[p] += 1; if cur[p] < 3 { break; } cur[p] = 0; p += 1; } } };
+        let info: Vec<(usize, usize, usize, Vec<Vec<i64>>)> = scopes.iter().map(|(a, c, r)| (*a, *c, *r, msets(*a))).collect();
+        let sizes: Vec<u64> = info.iter().map(|(na, ncl, _, ms)| (*ncl as u64).pow(*na as u32) * ms.len() as u64 * 3u64.pow(*na as u32) * (1u64 << (ncl * ncl))).collect();
+        let count = sizes.iter().sum();
+        ex.push(Example { name: "alp", scope: format!("(aircraft, classes, runways) in {:?}: all class assignments, sorted targets from {{1,2,4}}, latest = target + {{0,1,3}} (ordered inside a class), separations in {{1,2}}", scopes), count, file_flag: None, tsptw_output: false,
+            arg_sets: argsets(&w4, tt, "-w", "-t"),
+            gen: Box::new(move |mut idx| {
+                let mut k = 0;
+                while idx >= sizes[k] { idx -= sizes[k]; k += 1; }
+                let (na, ncl, nr, ms) = &info[k];
+                let (na, ncl, nr) = (*na, *ncl, *nr);
+                let classes: Vec<usize> = (0..na).map(|_| digit(&mut idx, ncl as u64) as usize).collect();
+                let targets = ms[digit(&mut idx, ms.len() as u64) as usize].clone();
+                let mut latest: Vec<i64> = (0..na).map(|a| targets[a] + [0, 1, 3][digit(&mut idx, 3) as usize]).collect();
+                // keep the latest times ordered like the targets inside each class (the model lands a class in index order)
+                for c in 0..ncl { let ids: Vec<usize> = (0..na).filter(|a| classes[*a] == c).collect(); for w in 1..ids.len() { if latest[ids[w]] < latest[ids[w - 1]] { latest[ids[w]] = latest[ids[w - 1]]; } } }
+                let sep: Vec<Vec<i64>> = (0..ncl).map(|_| (0..ncl).map(|_| digit(&mut idx, 2) as i64 + 1).collect()).collect();
+                let mut best: Option<i64> = None;
+                for p in perms(na) {
+                    let fifo = (0..ncl).all(|c| { let ids: Vec<usize> = p.iter().copied().filter(|a| classes[*a] == c).collect(); ids.windows(2).all(|w| w[0] < w[1]) });
+                    if !fifo { continue; }
+                    for code in 0..(nr as u64).pow(na as u32) {
+                        let mut c = code;
+                        let rw: Vec<usize> = (0..na).map(|_| digit(&mut c, nr as u64) as usize).collect();
+                        let mut last: BTreeMap<usize, (i64, usize)> = BTreeMap::new();
+                        let mut cost = 0; let mut feas = true;
+                        for a in p.iter() {
+                            let t = match last.get(&rw[*a]) { Some((pt, pc)) => targets[*a].max(pt + sep[*pc][classes[*a]]), None => targets[*a] };
+                            if t > latest[*a] { feas = false; break; }
+                            cost += t - targets[*a];
+                            last.insert(rw[*a], (t, classes[*a]));
+                        }
+                        if feas && best.map_or(true, |b| cost < b) { best = Some(cost); }
+                    }
+                }
+                let text = format!("{} {} {}\n{}{}", na, ncl, nr, (0..na).map(|a| format!("{} {} {}\n", targets[a], latest[a], classes[a])).collect::<String>(), sep.iter().map(|r| r.iter().map(|x| x.to_string()).collect::<Vec<_>>().join(" ") + "\n").collect::<String>());
+                Case { text, expect: match best { Some(b) => Expect::Value(b as f64), None => Expect::Infeasible }, descr: format!("classes {:?} targets {:?} latest {:?} separations {:?} runways {}", classes, targets, latest, sep, nr) }
+            }) });
+    }
+    ex
+}
+
+pub enum Verdict { Ok, Bad(String, String) }
+
+static WATCH: std::sync::Mutex<BTreeMap<u32, (Instant, bool)>> = std::sync::Mutex::new(BTreeMap::new());
+extern "C" { fn kill(pid: i32, sig: i32) -> i32; }
+fn start_watchdog() {
+    std::thread::spawn(|| loop {
+        std::thread::sleep(Duration::from_millis(500));
+        let mut w = WATCH.lock().unwrap();
+        for (pid, (t, killed)) in w.iter_mut() { if !*killed && t.elapsed() > Duration::from_secs(20) { *killed = true; unsafe { kill(*pid as i32, 9); } } }
+    });
+}
+
+/// runs the binary on a case file with an argument set; returns the verdict
+fn run_case(bin: &str, ex: &Example, file: &str, case: &Case, args: &[String]) -> Verdict {
+    let mut cmd = Command::new(bin);
+    match ex.file_flag { Some("GOLOMB") => { cmd.arg(case.text.trim()); } Some(f) => { cmd.arg(f).arg(file); } None => { cmd.arg(file); } }
+    cmd.args(args).stdout(Stdio::piped()).stderr(Stdio::piped()).stdin(Stdio::null()).env("RUST_BACKTRACE", "0");
+    let child = match cmd.spawn() { Ok(c) => c, Err(e) => return Verdict::Bad("machinery".to_string(), format!("cannot spawn {}: {}", bin, e)) };
+    // blocking wait; a watchdog thread kills the children which are older than 20 s
+    let pid = child.id();
+    WATCH.lock().unwrap().insert(pid, (Instant::now(), false));
+    let out = child.wait_with_output();
+    let killed = WATCH.lock().unwrap().remove(&pid).map_or(false, |e| e.1);
+    if killed { return Verdict::Bad(format!("example:{}:hang", ex.name), "no result within the 20 s watchdog".to_string()); }
+    let out = match out { Ok(o) => o, Err(e) => return Verdict::Bad("machinery".to_string(), format!("wait failed: {}", e)) };
+    let stdout = String::from_utf8_lossy(&out.stdout).to_string();
+    if !out.status.success() {
+        let err = String::from_utf8_lossy(&out.stderr).to_string();
+        let kind = if err.contains("overflow") { "arithmetic-overflow" } else if err.contains("panicked") { "panic" } else { "exit-status" };
+        let infeas = if matches!(case.expect, Expect::Infeasible) { ":infeasible-instance" } else { "" };
+        return Verdict::Bad(format!("example:{}:crash:{}{}", ex.name, kind, infeas), format!("exit status {:?}: {}", out.status.code(), err.lines().filter(|l| l.contains("panicked") || l.contains("overflow") || l.contains("rror")).take(3).collect::<Vec<_>>().join(" | ")));
+    }
+    let field = |key: &str| -> Option<String> { stdout.lines().find(|l| l.trim_start().starts_with(key)).map(|l| l.trim_start()[key.len()..].trim().trim_start_matches(':').trim().to_string()) };
+    if ex.tsptw_output {
+        let status = field("status").unwrap_or_default();
+        let lb = field("lower bnd").unwrap_or_default();
+        let sol = field("solution").unwrap_or_default();
+        if status != "Proved" { return Verdict::Bad(format!("example:{}:not-proved", ex.name), format!("status {:?}", status)); }
+        return match &case.expect {
+            Expect::Infeasible => if sol.contains("No feasible") { Verdict::Ok } else { Verdict::Bad(format!("example:{}:value-for-infeasible", ex.name), format!("instance is infeasible but the program prints solution {:?} (lower bnd {})", sol, lb)) },
+            Expect::Value(v) => match lb.parse::<f64>() { Ok(g) if (g - v).abs() < 1e-6 && !sol.contains("No feasible") => Verdict::Ok, _ => Verdict::Bad(format!("example:{}:wrong-objective", ex.name), format!("prints lower bnd {} / solution {:?} but the optimum is {}", lb, sol, v)) },
+        };
+    }
+    let obj = field("Objective");
+    let aborted = field("Aborted");
+    match (obj, aborted) {
+        (Some(o), Some(a)) => {
+            if a != "false" { return Verdict::Bad(format!("example:{}:aborted", ex.name), format!("Aborted: {} without any cut-off", a)); }
+            let got: f64 = match o.parse() { Ok(g) => g, Err(_) => return Verdict::Bad(format!("example:{}:unparsable", ex.name), format!("Objective: {:?}", o)) };
+            let want = match &case.expect { Expect::Value(v) => *v, Expect::Infeasible => -1.0 };
+            if (got - want).abs() < 1e-6 { Verdict::Ok } else { Verdict::Bad(format!("example:{}:wrong-objective", ex.name), format!("prints Objective {} but exhaustive enumeration gives {}", got, want)) }
+        }
+        _ => Verdict::Bad(format!("example:{}:unparsable", ex.name), format!("no Objective/Aborted line in {:?}", stdout.chars().take(200).collect::<String>())),
+    }
+}
+
+#[derive(Default)]
+struct Local { runs: u64, cases: u64, infeasible: u64, distinct_objectives: std::collections::BTreeSet<i64>, samples: Vec<Value> }
+
+pub fn build_examples(rep: &Reporter) -> Option<String> {
+    let target = format!("{}/.build/examples", verif_dir());
+    let out = Command::new("cargo").args(["build", "--examples", "-p", "ddo", "--offline"]).current_dir("/repo").env("CARGO_TARGET_DIR", &target).env("CARGO_PROFILE_DEV_OPT_LEVEL", "1").env("CARGO_NET_OFFLINE", "true").output();
+    match out {
+        Ok(o) if o.status.success() => Some(format!("{}/debug/examples", target)),
+        Ok(o) => { rep.engine_error(format!("the examples do not build: {}", String::from_utf8_lossy(&o.stderr).lines().rev().take(10).collect::<Vec<_>>().join(" | "))); None }
+        Err(e) => { rep.engine_error(format!("cannot run cargo: {}", e)); None }
+    }
+}
+
+pub fn check(tier: &str) -> i32 {
+    let rep = Reporter::new("C16", tier);
+    let th = rep.thorough();
+    let only: Option<String> = std::env::var("VERIF_EXAMPLE").ok();
+    let bindir = match build_examples(&rep) { Some(b) => b, None => return rep.finish("exploration", json!({"evaluations": 0, "distinct_nontrivial": 0, "rule": "build failed", "samples": []}), vec![]) };
+    let scratch = format!("{}/.build/ex-scratch/{}", verif_dir(), std::process::id());
+    let _ = std::fs::create_dir_all(&scratch);
+    let exs = examples(th);
+    start_watchdog();
+    let total_budget = if th { 3000.0 } else { 48.0 };
+    let t0 = Instant::now();
+    let mut per_example = vec![];
+    let (mut runs, mut cases, mut complete) = (0u64, 0u64, true);
+    let mut samples = vec![];
+    let n_ex = exs.iter().filter(|e| only.as_ref().map_or(true, |o| o == e.name)).count().max(1);
+    for (ei, ex) in exs.iter().filter(|e| only.as_ref().map_or(true, |o| o == e.name)).enumerate() {
+        // every example gets an equal share of what is left of the budget
+        let left = total_budget - t0.elapsed().as_secs_f64();
+        let share = (left / (n_ex - ei) as f64).max(1.0);
+        let deadline = Instant::now() + Duration::from_secs_f64(share);
+        let bin = format!("{}/{}", bindir, ex.name);
+        let te = Instant::now();
+        let res = par_run::<Local, _>(ex.count, 8, Some(deadline), rep.seed, |i, l| {
+            let case = (ex.gen)(i);
+            let tid = format!("{:?}", std::thread::current().id()).replace(|c: char| !c.is_ascii_digit(), "");
+            let dir = format!("{}/{}/t{}", scratch, ex.name, tid);
+            let _ = std::fs::create_dir_all(&dir);
+            let file = format!("{}/inst_{}.txt", dir, ex.name);
+            if ex.file_flag != Some("GOLOMB") { let _ = std::fs::write(&file, &case.text); }
+            l.cases += 1;
+            match &case.expect { Expect::Infeasible => l.infeasible += 1, Expect::Value(v) => { l.distinct_objectives.insert((*v * 2.0) as i64); } }
+            for args in ex.arg_sets.iter() {
+                l.runs += 1;
+                match run_case(&bin, ex, &file, &case, args) {
+                    Verdict::Ok => (),
+                    Verdict::Bad(sig, what) => {
+                        if sig == "machinery" { rep.engine_error(what); } else {
+                            rep.violation(sig, format!("{} {:?} on instance [{}]: {}", ex.name, args, case.descr, what), json!({"engine": "examples", "example": ex.name, "args": args, "instance_index": i, "instance_file": case.text, "expected": format!("{:?}", case.expect), "description": case.descr}));
+                        }
+                    }
+                }
+            }
+            if l.samples.len() < 1 && i % 7 == 3 { l.samples.push(json!({"example": ex.name, "file": case.text, "expected": format!("{:?}", case.expect), "arg_sets": ex.arg_sets})); }
+        });
+        let mut l = Local::default();
+        for x in res.locals { l.runs += x.runs; l.cases += x.cases; l.infeasible += x.infeasible; l.distinct_objectives.extend(x.distinct_objectives); if l.samples.is_empty() { l.samples.extend(x.samples); } }
+        runs += l.runs; cases += l.cases;
+        if res.done < ex.count { complete = false; }
+        if samples.len() < 12 { samples.extend(l.samples.into_iter().take(1)); }
+        per_example.push(json!({"example": ex.name, "scope": ex.scope, "instances_in_scope": ex.count, "instances_done": res.done, "complete": res.done == ex.count, "runs": l.runs, "argument_sets": ex.arg_sets.len(),
+            "infeasible_instances": l.infeasible, "distinct_optimal_values": l.distinct_objectives.len(), "wall_s": te.elapsed().as_secs_f64()}));
+    }
+    let _ = std::fs::remove_dir_all(&scratch);
+    let cov = json!({
+        "evaluations": runs, "distinct_nontrivial": cases,
+        "rule": "per example: every instance file of the stated tiny scope (bounded exhaustive, decoded from an index) x every listed argument set (widths / threads) is run through the real example binary built from /repo (dev profile, overflow checks on); oracle = brute force over the combinatorial object written from the problem statement; a run is a violation when the binary exits non-zero, exceeds a 20 s watchdog, prints Aborted: true, or prints an objective different from the oracle; distinct_nontrivial = distinct instance files run (each instance is enumerated once)",
+        "samples": samples, "exhaustive": complete, "examples": per_example,
+        "caps_hit": if complete { json!([]) } else { json!(["wall clock share of the tier: see examples[*].instances_done (the order of blocks rotates with VERIF_SEED)"]) },
+    });
+    rep.finish("exploration", cov, vec![
+        "worker schedules inside the example binaries are the operating system's (schedules are the subject of C03/C04)".to_string(),
+        "only undeniably well-formed files are generated (positive weights, distinct clauses, metric distance matrices for tsptw, per-class ordered latest times for alp)".to_string(),
+    ])
+}
